@@ -111,6 +111,9 @@ R9(N) == [Base EXCEPT !.states = <<S1, S1, S1, S1, S1>>, !.controls = <<Sym1>>,
                       !.params = Tup([i \in 1..5 |-> [kind |-> "g", val |-> <<Q(i, 2)>>]]),
                       !.xblocks = <<<<2, 2>>, <<1, 1>>>>, !.pblocks = <<<<2, 2>>, <<1, 1>>>>, !.catset = TRUE,
                       !.rhs = Tup([i \in 1..5 |-> IF i <= 4 THEN Plus(Times(P(i), X(i)), Times(CI(i), U(1))) ELSE Plus(Times(P(5), X(5)), X(1))])]
+\* RE:  a 2x1 vector state (x1, x2) declared before the scalar state x3:  x1' = x2, x2' = u, x3' = x1 + u
+RE(N) == [Base EXCEPT !.states = <<S1, S1, S1>>, !.controls = <<Sym1>>, !.xblocks = <<<<2, 1>>, <<1, 1>>>>,
+                      !.rhs = <<X(2), U(1), Plus(X(1), U(1))>>]
 \* R3v: R3 with the two states declared as one 2x1 vector state
 R3v(N) == [R3(N) EXCEPT !.xblocks = <<<<2, 1>>>>]
 
@@ -130,7 +133,7 @@ RC(N) == [Base EXCEPT !.states = <<S1>>, !.controls = <<Sym1>>,
 
 RhsIds == {"R1", "R2", "R3", "R4", "R5", "R7"}
 Rhs(id, N) == CASE id = "R1" -> R1(N) [] id = "R2" -> R2(N) [] id = "R3" -> R3(N)
-                [] id = "R4" -> R4(N) [] id = "R5" -> R5(N) [] id = "R7" -> R7(N) [] id = "R6" -> R6(N) [] id = "RD" -> RD(N) [] id = "R8" -> R8(N) [] id = "R9" -> R9(N) [] id = "R3v" -> R3v(N) [] id = "RA" -> RA(N) [] id = "RB" -> RB(N) [] id = "RC" -> RC(N)
+                [] id = "R4" -> R4(N) [] id = "R5" -> R5(N) [] id = "R7" -> R7(N) [] id = "R6" -> R6(N) [] id = "RD" -> RD(N) [] id = "R8" -> R8(N) [] id = "R9" -> R9(N) [] id = "RE" -> RE(N) [] id = "R3v" -> R3v(N) [] id = "RA" -> RA(N) [] id = "RB" -> RB(N) [] id = "RC" -> RC(N)
 
 (***************************************************************************)
 (* Path / boundary constraints (all well-formed for every rhs above:       *)
